@@ -197,6 +197,35 @@ def run_obs(traces, wd, batch_events=15000):
     return bad, states, trans, sum(len(b) for b in batches)
 
 
+def apalache(wd, files, module, nxt, obligations, cinit=None, jobs=6):
+    """Runs `apalache-mc check` once per obligation (init, invariant, length, expected exit) on a private copy of `files`;
+    anything but the expected outcome is a failure of the machinery (a specification that does not satisfy its own properties)."""
+    import re
+    import shutil
+    import subprocess
+    from concurrent.futures import ThreadPoolExecutor
+
+    def one(ob):
+        init, inv, length, want = ob
+        d = os.path.join(wd, "apa-%s-%s-%s" % (module, init, inv))
+        os.makedirs(d, exist_ok=True)
+        for f in files:
+            shutil.copy(os.path.join(SPECS, f), d)
+        cmd = ["apalache-mc", "check"] + (["--cinit=" + cinit] if cinit else []) + ["--init=" + init, "--next=" + nxt, "--inv=" + inv,
+                                                                                   "--length=%d" % length, "--out-dir=" + os.path.join(d, "out"), module + ".tla"]
+        try:
+            p = subprocess.run(cmd, cwd=d, capture_output=True, text=True, timeout=600)
+        except subprocess.TimeoutExpired:
+            raise Infra("apalache timed out on " + inv)
+        m = re.search(r"EXITCODE: (\w+)", p.stdout)
+        got = m.group(1) if m else "none"
+        if got != want:
+            raise Infra("apalache: %s from %s is %s, expected %s:\n%s" % (inv, init, got, want, p.stdout[-1500:]))
+        return inv
+    with ThreadPoolExecutor(max_workers=jobs) as ex:
+        return list(ex.map(one, obligations))
+
+
 def write_evidence(prop, tier, seed, level, coverage, assumptions, wall, violations):
     # evidence/ describes /repo itself; a run against another tree (VERIF_REPO: a seeded change in a scratch worktree) writes elsewhere
     edir = "evidence" if REPO == "/repo" else os.path.join(".work", "evidence-other-tree")
